@@ -50,6 +50,7 @@ static vf::json gen_case(vf::Choice& ch, int size, const std::string& prop) {
     }
     c["defs"] = defs;
     c["route_salt"] = int(ch.draw(60));
+    c["legacy_handler"] = ch.chance(1, 3);
     if (prop == "C09") {
         c["history"] = ch.chance(1, 2);
         std::vector<int> v, w;
